@@ -393,11 +393,14 @@ class Gen:
             if n in closures:
                 hdr, spec = closures[n]
                 # replace `|params|` by header; spec lines go before the body `{`
-                if not (toks[bs].k == "o" and toks[bs].s == "{"):
-                    raise Lost("%s: closure %d needs a block body to carry a spec" % (path, n))
                 skip_until[po] = (pcl + 1, [(hdr, None, {})])
                 sp = "\n" + "\n".join(l for _, l in spec) + "\n"
-                add_before(bs, sp, part="closure%d" % n)
+                if not (toks[bs].k == "o" and toks[bs].s == "{"):
+                    # expression body: `|x| e`  ->  `|x: T| -> (r: U) spec { e }`
+                    add_before(bs, sp + "{ ", part="closure%d" % n)
+                    add_before(clos_ext[n][1], " }")
+                else:
+                    add_before(bs, sp, part="closure%d" % n)
                 self.count("R3-closure")
             else:
                 # R1: wildcard params
@@ -622,7 +625,7 @@ class Gen:
         def flush():
             nonlocal cur, cur_off, extra
             if cur_off is not None:
-                self.emit(cur, kind="repo", file=self.cur_src, line=offset_to_line(ls, cur_off), fn=path, part="body", **{k: v for k, v in extra.items() if k == "part"})
+                self.emit(cur, kind="repo", file=self.cur_src, line=offset_to_line(ls, cur_off), fn=path, part=extra.get("part", "body"))
             else:
                 self.emit(cur, kind="spec", file=extra.get("spec_file"), fn=path, part=extra.get("part", "body"))
             cur, cur_off, extra = "", None, {}
